@@ -103,50 +103,75 @@ def pipeline_a(files, entry, cpu=10):
         core.rm(d)
 
 
-def pipeline_b04(files, entry, cpu=10, keep_artefacts=False):
-    d = core.case_dir("B")
-    try:
-        core.write_files(d, files)
-        s = Side()
-        r = _step(s, "compile", core.ms("compile", entry, "--quick"), d, cpu)
-        if r.cls != "ok":
-            s.rejected = _is_compile_reject(r)
-            return s
-        mmm = entry[:-3] + ".mmm"
+def b04_in(d, entry, cpu=10, keep_artefacts=False, inspect=None):
+    """Pipeline B of C04 in directory d as it is (histories run several of these in one directory)."""
+    s = Side()
+    r = _step(s, "compile", core.ms("compile", entry, "--quick"), d, cpu)
+    if r.cls != "ok":
+        s.rejected = _is_compile_reject(r)
+        return s
+    mmm = entry[:-3] + ".mmm"
+    if keep_artefacts or inspect:
+        b = _read(os.path.join(d, mmm), binary=True)
         if keep_artefacts:
-            b = _read(os.path.join(d, mmm), binary=True)
             s.artefacts["binary_file"] = _show_bytes(b)
-        _step(s, "execute", core.ms("execute", mmm), d, cpu, dump=True)
-        return _finish(s, d)
-    finally:
-        core.rm(d)
+        if inspect and b is not None:
+            s.artefacts.update(inspect(b))
+    _rm_dump(d)
+    _step(s, "execute", core.ms("execute", mmm), d, cpu, dump=True)
+    return _finish(s, d)
 
 
-def pipeline_b18(files, entry, cpu=10, keep_artefacts=False):
-    d = core.case_dir("B")
+def b18_in(d, entry, cpu=10, keep_artefacts=False, inspect=None):
+    s = Side()
+    r = _step(s, "compile_raw_text", core.ms("compile", entry, "--output-format", "raw-text", "--quick"), d, cpu)
+    if r.cls != "ok":
+        s.rejected = _is_compile_reject(r)
+        return s
+    stem = entry[:-3]
     try:
-        core.write_files(d, files)
-        s = Side()
-        r = _step(s, "compile_raw_text", core.ms("compile", entry, "--output-format", "raw-text", "--quick"), d, cpu)
-        if r.cls != "ok":
-            s.rejected = _is_compile_reject(r)
-            return s
-        stem = entry[:-3]
+        os.replace(os.path.join(d, stem + ".mmm"), os.path.join(d, stem + ".transpiled.mmm"))
+    except OSError as ex:
+        raise core.Inconclusive("raw-text output missing: %s" % ex)
+    if keep_artefacts:
+        s.artefacts["text_form"] = _read(os.path.join(d, stem + ".transpiled.mmm"))
+    r = _step(s, "transpile", core.ms("transpile", stem + ".transpiled.mmm"), d, cpu)
+    if keep_artefacts or inspect:
+        b = _read(os.path.join(d, stem + ".mmm"), binary=True)
+        if keep_artefacts:
+            s.artefacts["binary_file"] = _show_bytes(b)
+        if inspect and b is not None:
+            s.artefacts.update(inspect(b))
+    if r.cls != "ok":
+        return s
+    _rm_dump(d)
+    _step(s, "execute", core.ms("execute", stem + ".mmm"), d, cpu, dump=True)
+    return _finish(s, d)
+
+
+def _rm_dump(d):
+    try:
+        os.unlink(os.path.join(d, "_dump.log"))
+    except OSError:
+        pass
+
+
+B_IN = {"C04": b04_in, "C18": b18_in}
+
+
+def _fresh_b(prop):
+    def run_b(files, entry, cpu=10, keep_artefacts=False, inspect=None):
+        d = core.case_dir("B")
         try:
-            os.rename(os.path.join(d, stem + ".mmm"), os.path.join(d, stem + ".transpiled.mmm"))
-        except OSError as ex:
-            raise core.Inconclusive("raw-text output missing: %s" % ex)
-        if keep_artefacts:
-            s.artefacts["text_form"] = _read(os.path.join(d, stem + ".transpiled.mmm"))
-        r = _step(s, "transpile", core.ms("transpile", stem + ".transpiled.mmm"), d, cpu)
-        if keep_artefacts:
-            s.artefacts["binary_file"] = _show_bytes(_read(os.path.join(d, stem + ".mmm"), binary=True))
-        if r.cls != "ok":
-            return s
-        _step(s, "execute", core.ms("execute", stem + ".mmm"), d, cpu, dump=True)
-        return _finish(s, d)
-    finally:
-        core.rm(d)
+            core.write_files(d, files)
+            return B_IN[prop](d, entry, cpu, keep_artefacts, inspect)
+        finally:
+            core.rm(d)
+    return run_b
+
+
+pipeline_b04 = _fresh_b("C04")
+pipeline_b18 = _fresh_b("C18")
 
 
 def _show_bytes(b):
@@ -173,7 +198,10 @@ def _canon_instr(ins):
 
 
 def one_line(text, cap=400):
-    return " ".join(str(text).split())[:cap]
+    """Single printable line (loader panics quote raw record bytes, NUL included)."""
+    t = " ".join(str(text).split())[:cap]
+    return "".join(c if (c.isprintable() or c == " ") else "\\x%02x" % ord(c) if ord(c) < 256 else "\\u%04x" % ord(c)
+                   for c in t)
 
 
 def compare_dumps(da, db):
@@ -191,7 +219,8 @@ def compare_dumps(da, db):
                 def show(x):
                     if x is None:
                         return "<no instruction>"
-                    return "%s %r" % (tracecheck.OPNAMES[x[0]] if 0 <= x[0] < len(tracecheck.OPNAMES) else x[0], x[1])
+                    return "%s [%s]" % (tracecheck.OPNAMES[x[0]] if 0 <= x[0] < len(tracecheck.OPNAMES) else x[0],
+                                        ", ".join(_short(y) for y in x[1]))
                 return "%s#%s instruction %d: run has %s, pipeline B has %s" % (k[0], k[1], i, show(ia), show(ib))
     return None
 
@@ -228,23 +257,37 @@ def _apply_break(b):
         b.res.cls = "ok"
 
 
-def compare(prop, files, entry, cpu=10, a=None, keep_artefacts=False):
+def compare(prop, files, entry, cpu=10, a=None, keep_artefacts=False, inspect=None):
     """-> (status, deviations, A, B); status: compared | rejected | inconclusive:<why>.
     deviations: [(kind in exit|stdout|dump, detail)] in that order of precedence."""
     if a is None:
         a = pipeline_a(files, entry, cpu)
-    b = PIPE_B[prop](files, entry, cpu, keep_artefacts)
+    b = PIPE_B[prop](files, entry, cpu, keep_artefacts, inspect)
+    status, devs = judge(a, b)
+    return status, devs, a, b
+
+
+PROGRAM_STAGES = ("execute", "run")     # stages whose stdout is the program's output
+
+
+def _short(text, cap=120):
+    r = repr(text)
+    return r if len(r) <= cap else r[:cap // 2] + "…(%d chars)…" % len(text) + r[-cap // 2:]
+
+
+def judge(a, b):
+    """Oracle proper: what `run` (a) showed against what pipeline B (b) showed."""
     _apply_break(b)
     for s in (a, b):
         if s.res.cls in ("cpu_timeout", "wall_timeout", "spawn_error"):
-            return "inconclusive:%s in stage %s" % (s.res.cls, s.stage), [], a, b
+            return "inconclusive:%s in stage %s" % (s.res.cls, s.stage), []
     if a.rejected and b.rejected:
-        return "rejected", [], a, b
+        return "rejected", []
     devs = []
     if a.rejected != b.rejected:
         devs.append(("exit", "the compiler rejects the program in one pipeline only (run: %s, pipeline B: %s)"
                      % ("rejected" if a.rejected else "accepted", "rejected" if b.rejected else "accepted")))
-        return "compared", devs, a, b
+        return "compared", devs
     ok_a, ok_b = a.res.cls == "ok", b.res.cls == "ok"
     if ok_a != ok_b:
         bad = b if ok_a else a
@@ -253,28 +296,28 @@ def compare(prop, files, entry, cpu=10, a=None, keep_artefacts=False):
             one_line(core.classify_failure(bad.res)[1] or core.classify_failure(bad.res)[0], 240))))
     elif not ok_a:
         ca, cb = _fail_class(a.res), _fail_class(b.res)
-        if ca != cb or b.stage != "execute":
+        if ca != cb or b.stage not in PROGRAM_STAGES:
             devs.append(("exit", "both fail, differently: run %s, pipeline B (stage `%s`) %s" % (ca, b.stage, cb)))
-    b_out = b.res.out if b.stage == "execute" else ""       # output of the *program*, not of compile/transpile
+    b_out = b.res.out if b.stage in PROGRAM_STAGES else ""  # output of the *program*, not of compile/transpile
     if a.res.out != b_out:
-        la, lb = a.res.lines(), (b.res.lines() if b.stage == "execute" else [])
+        la, lb = a.res.lines(), (b.res.lines() if b.stage in PROGRAM_STAGES else [])
         i = 0
         while i < min(len(la), len(lb)) and la[i] == lb[i]:
             i += 1
-        devs.append(("stdout", "stdout differs at line %d: run %r, pipeline B %r" % (
-            i + 1, la[i] if i < len(la) else "<end of output>", lb[i] if i < len(lb) else "<end of output>")))
+        devs.append(("stdout", "stdout differs at line %d: run %s, pipeline B %s" % (
+            i + 1, _short(la[i]) if i < len(la) else "<end of output>", _short(lb[i]) if i < len(lb) else "<end of output>")))
     if a.dump is None:
-        return "inconclusive:H-DUMP silent under run", [], a, b
+        return "inconclusive:H-DUMP silent under run", []
     if b.dump is None:
         if ok_b:
-            return "inconclusive:H-DUMP silent under execute", [], a, b
+            return "inconclusive:H-DUMP silent under execute", []
         if not devs:
             devs.append(("dump", "pipeline B loaded no function"))
     else:
         d = compare_dumps(a.dump, b.dump)
         if d:
             devs.append(("dump", d))
-    return "compared", devs, a, b
+    return "compared", devs
 
 
 _ADDR = re.compile(r"0x[0-9a-fA-F]+")
@@ -336,7 +379,7 @@ def work_program(item):
     if devs and devs[0][0] == "stdout":          # (with an exit deviation the stdout difference is its consequence)
         if stdout_is_nondeterministic(files, entry, a.res.out, cpu=5):
             devs = [d for d in devs if d[0] != "stdout"]
-            b_out = b.res.out if b.stage == "execute" else ""
+            b_out = b.res.out if b.stage in PROGRAM_STAGES else ""
             if canon_out(a.res.out) == canon_out(b_out):
                 res["notes"].append("stdout of `run` itself varies between executions: compared modulo addresses "
                                     "and order (multiset of lines, characters within a line sorted)")
@@ -881,3 +924,335 @@ def collect_opcodes(prop, out):
     return {"opcode_names_in_table": len(table), "opcode_cases_checked(name x argument form)": checked,
             "argument_list_forms_checked": [f for f, _, _ in ARG_LIST_FORMS],
             "opcode_names_refused_as_deprecated": sorted(refused), "opcode_table_enumerated_completely": True}
+
+
+# ----------------------------------------------------------------------------- histories (stale output files)
+#
+# One directory, several compilations to the same .mmm paths: compile A, replace the source by B, compile again,
+# execute — the result must be that of `run` B in a fresh directory.  Catches an output file that is not truncated /
+# replaced (stale tail of the longer predecessor), for the entry module and for an imported module.
+
+PAD = "@PAD@"
+
+
+def _long(n, ch="a"):
+    return "".join(chr(ord(ch) + (i % 23)) for i in range(n))
+
+
+def _fns_family(tag, n_fns, first_len, msg, call_only_first=False):
+    out = []
+    for i in range(n_fns):
+        out += ["h%s_%d = fn(w%s_%d: str) -> str {" % (tag, i, tag, i),
+                "\treturn \"%s \" + w%s_%d" % (_long(first_len if i == 0 else 24, "b"), tag, i), "}"]
+    for i in range(n_fns):
+        if call_only_first:          # a stale copy of this module body still links against a successor with one helper
+            out.append("print h%s_0(\"%s%d\")" % (tag, tag, i))
+            continue
+        out.append("print h%s_%d(\"%s%d\")" % (tag, i, tag, i))
+    out.append("print \"%s\"" % msg)
+    return "\n".join(out) + "\n"
+
+
+def _cls_family(tag, msg):
+    return ("class K%s {\n\tv%s: int\n\tconstructor(self, x%s: int) {\n\t\tself.v%s = x%s\n\t}\n"
+            "\tfn val%s(self) -> int {\n\t\treturn self.v%s + 1\n\t}\n\tfn txt%s(self) -> str {\n"
+            "\t\treturn \"%s\"\n\t}\n}\no%s = K%s(41)\nprint o%s.val%s()\nprint o%s.txt%s()\nprint \"%s\"\n"
+            % (tag, tag, tag, tag, tag, tag, tag, tag, _long(150, "c"), tag, tag, tag, tag, tag, tag, msg))
+
+
+HIST_SHORT = ("hb_0 = fn(wb_0: str) -> str {\n\treturn \"Bye, \" + wb_0\n}\nprint hb_0(\"short\")\nprint \"B " + PAD + "\"\n")
+HIST_LIB_A = ("hidden_a = fn(q_a: int) -> int {\n\treturn q_a + 1\n}\nhidden_b = fn(q_b: str) -> str {\n\treturn \"%s\" + q_b\n}\n"
+              "export KL: int = hidden_a(9)\nexport fl: fn(int) -> int = fn(a_l: int) -> int {\n\treturn a_l * 3 + KL\n}\n"
+              "print hidden_b(\" lib A\")\nprint \"lib A init %s\"\n" % (_long(140, "d"), _long(60, "e")))
+HIST_LIB_B = ("export KL: int = 10\nexport fl: fn(int) -> int = fn(a_l: int) -> int {\n\treturn a_l * 3 + KL\n}\n"
+              "print \"lib B " + PAD + "\"\n")
+HIST_MAIN = "import lib_h\nprint lib_h.KL\nprint lib_h.fl(4)\nprint \"main done\"\n"
+
+
+def mmm_layout(b):
+    """(size, offsets where a function starts, offsets where any other record starts)"""
+    fstarts, rstarts, pos, in_fn = [], [], 0, False
+    while pos < len(b):
+        end = b.find(b"\0", pos)
+        if end < 0:
+            break
+        rec = b[pos:end + 1]
+        if not in_fn and rec[:2] == b"f ":
+            fstarts.append(pos)
+            in_fn = True
+        else:
+            rstarts.append(pos)
+            if in_fn and rec[:1] == b"e":
+                in_fn = False
+        pos = end + 1
+    return len(b), fstarts, rstarts
+
+
+def measure(files, entry, target):
+    """Bytes of <target> written by `compile <entry> --quick` in a fresh directory."""
+    d = core.case_dir("M")
+    try:
+        core.write_files(d, files)
+        r = core.run(core.ms("compile", entry, "--quick"), d, cpu=10)
+        b = _read(os.path.join(d, target), binary=True)
+        if r.cls != "ok" or b is None:
+            raise core.Inconclusive("history: cannot measure %s (%s): %s" % (target, r.cls, one_line(r.out + r.err, 200)))
+        return b
+    finally:
+        core.rm(d)
+
+
+def history_catalogue():
+    """[(kind, family, relation, spec)] — deterministic."""
+    cases = []
+    rel_entry = ["much_shorter", "shorter_1", "shorter_9", "same", "longer_1", "record_boundary"] + \
+                ["fn_boundary_%d" % k for k in range(1, 6)]
+    fams = {"fns": _fns_family("a", 4, 120, "version A " + _long(70, "f")),
+            "fns_call0": _fns_family("a", 3, 60, "version A " + _long(30, "f"), call_only_first=True), "cls": _cls_family("a", "version A " + _long(40, "g"))}
+    for fam, a_src in sorted(fams.items()):
+        for rel in rel_entry:
+            cases.append(("entry", fam, rel, {"a": {"main.ms": a_src}, "b": {"main.ms": HIST_SHORT}, "target": "main.mmm",
+                                              "order": "AB"}))
+        cases.append(("entry", fam, "reverse_longer_over_shorter", {"a": {"main.ms": a_src}, "b": {"main.ms": HIST_SHORT},
+                                                                     "target": "main.mmm", "order": "BA"}))
+        a2 = a_src.replace("version A ", "v A' ")
+        for rel in ("much_shorter", "fn_boundary_2", "shorter_1"):
+            cases.append(("entry3", fam, rel, {"a": {"main.ms": a_src}, "b": {"main.ms": HIST_SHORT}, "a2": {"main.ms": a2},
+                                               "target": "main.mmm", "order": "ABA"}))
+    lib = {"a": {"main.ms": HIST_MAIN, "lib_h.ms": HIST_LIB_A}, "b": {"main.ms": HIST_MAIN, "lib_h.ms": HIST_LIB_B},
+           "target": "lib_h.mmm"}
+    for via in ("module", "module_run"):
+        for rel in ["much_shorter", "shorter_1", "same", "longer_1", "record_boundary"] + ["fn_boundary_%d" % k for k in range(1, 4)]:
+            cases.append((via, "lib", rel, dict(lib, order="AB")))
+        cases.append((via, "lib", "reverse_longer_over_shorter", dict(lib, order="BA")))
+        cases.append((via, "lib", "much_shorter", dict(lib, order="ABA", a2={"main.ms": HIST_MAIN, "lib_h.ms":
+                                                                               HIST_LIB_A.replace("lib A init ", "A' ")})))
+    return cases
+
+
+def _padded(files, n):
+    return {k: v.replace(PAD, "p" * n) for k, v in files.items()}
+
+
+def work_history(item):
+    """item = (prop, kind, family, relation, spec).  Returns a small summary."""
+    prop, kind, fam, rel, spec = item
+    res = {"case": "%s/%s" % (kind, fam), "relation": rel, "status": "compared", "devs": [], "steps": 0, "witness": None,
+           "sizes": None}
+    entry = "main.ms"
+    if "steps" in spec:                                   # random history: sources given
+        steps = spec["steps"]
+    else:
+        a_files, target = spec["a"], spec["target"]
+        a_bytes = measure(a_files, entry, target)
+        size_a, fstarts, rstarts = mmm_layout(a_bytes)
+        s0 = len(measure(_padded(spec["b"], 0), entry, target))
+        want = None
+        if rel in ("much_shorter", "reverse_longer_over_shorter"):
+            want = s0
+        elif rel.startswith("shorter_"):
+            want = size_a - int(rel.split("_")[1])
+        elif rel == "same":
+            want = size_a
+        elif rel == "longer_1":
+            want = size_a + 1
+        elif rel.startswith("fn_boundary_"):
+            k = int(rel.rsplit("_", 1)[1])
+            cands = [o for o in fstarts if o >= s0]
+            want = cands[k - 1] if len(cands) >= k else None
+        elif rel == "record_boundary":
+            cands = [o for o in rstarts if o >= s0 + 3]
+            want = cands[len(cands) // 2] if cands else None
+        if want is None or want < s0:
+            res["status"] = "unreachable_relation"
+            return res
+        b_files = _padded(spec["b"], want - s0)
+        got = len(measure(b_files, entry, target))
+        if got != want:
+            raise core.Inconclusive("history: padded B is %d bytes, wanted %d" % (got, want))
+        res["sizes"] = {"A": size_a, "B": got, "A_function_starts": fstarts}
+        steps = {"AB": [a_files, b_files], "BA": [b_files, a_files], "ABA": [a_files, b_files, spec.get("a2", a_files)]}[spec["order"]]
+    d = core.case_dir("H")
+    try:
+        for i, files in enumerate(steps):
+            core.write_files(d, files)
+            if kind == "module_run":
+                _rm_dump(d)
+                b = Side()
+                r = _step(b, "run", core.ms("run", entry, "-q"), d, 10, dump=True)
+                b.rejected = r.cls != "ok" and _is_compile_reject(r)
+                _finish(b, d)
+            else:
+                b = B_IN[prop](d, entry, 10, keep_artefacts=True)
+            a = pipeline_a(files, entry, 10)
+            status, devs = judge(a, b)
+            res["steps"] += 1
+            if status != "compared":
+                res["status"] = status if status.startswith("inconclusive") else "rejected"
+                return res
+            if devs:
+                what = ("after step %d of %d (%s the same directory, sources replaced in place)" % (
+                    i + 1, len(steps), "`run` in" if kind == "module_run" else "pipeline B in"))
+                res["devs"] = [(k, "%s: %s" % (what, t)) for k, t in devs]
+                res["witness"] = {"history": [dict(f) for f in steps[:i + 1]], "files": files, "entry": entry,
+                                  "pipeline": prop, "kind": kind, "relation": rel, "sizes": res["sizes"], "deviations": res["devs"],
+                                  "run_fresh": a.brief(), "pipeline_b_in_history_dir": b.brief()}
+                return res
+        return res
+    finally:
+        core.rm(d)
+
+
+def collect_histories(prop, out, extra_items=()):
+    items = [(prop, kind, fam, rel, spec) for kind, fam, rel, spec in history_catalogue()]
+    if prop == "C18":          # raw-text is only produced for the entry; `run`-only histories belong to C04
+        items = [it for it in items if it[1] != "module_run"]
+    items += list(extra_items)
+    results = core.pmap(work_history, items, chunksize=1)
+    cov = {"history_cases": 0, "history_steps_compared": 0, "history_unreachable_relations": 0, "history_relations": set(),
+           "history_rejected": 0}
+    for (status, res), item in zip(results, items):
+        name = "history:%s/%s:%s" % (item[1], item[2], item[3])
+        if status != "ok":
+            out.inconclusive.append("%s: %s" % (name, str(res)[-300:]))
+            continue
+        if res["status"] == "unreachable_relation":
+            cov["history_unreachable_relations"] += 1
+            continue
+        if res["status"] == "rejected":
+            cov["history_rejected"] += 1
+            continue
+        if res["status"].startswith("inconclusive"):
+            out.inconclusive.append("%s: %s" % (name, res["status"]))
+            continue
+        cov["history_cases"] += 1
+        cov["history_steps_compared"] += res["steps"]
+        cov["history_relations"].add("%s:%s" % (item[1], item[3]))
+        out.evaluations += res["steps"]
+        out.distinct.add(core.h(["history", item[1], item[2], item[3], item[4].get("order"), item[4].get("steps")]))
+        if res["devs"]:
+            dev, detail = res["devs"][0]
+            sig = ("%s:history:random:%s" % (prop, dev) if item[1] == "random" else
+                   "%s:history:%s/%s:%s:%s" % (prop, item[1], item[2], item[3], dev))
+            out.violations.append(core.Violation(sig, "%s %s" % (name, detail), res["witness"]))
+    cov["history_relations"] = sorted(cov["history_relations"])
+    return cov
+
+
+def replay_history(prop, w):
+    kind = w.get("kind", "entry")
+    res = work_history((prop, kind, "replay", w.get("relation", ""), {"steps": w["history"]}))
+    return res
+
+
+# ----------------------------------------------------------------------------- large files (block boundaries)
+#
+# Bytecode files of 9-140 KiB made almost entirely of 2-, 3- and 4-byte characters, in alignment variants (ASCII prefix
+# of 0..3 bytes), so that some character's encoding straddles every multiple of 4096 of the file in some variant.
+
+WIDE = {2: "éßΩñ", 3: "€日あ‰", 4: "😀𝄞🜁𐍈"}
+
+
+def large_program(shape, width, kib, pad):
+    chars = WIDE[width] if width else WIDE[2] + WIDE[3] + WIDE[4]
+    target = kib * 1024
+    pre = "x" * pad
+    if shape == "one_string":
+        n = target // (width or 3)
+        body = "".join(chars[i % len(chars)] for i in range(n))
+        return "print \"%s%s\"\nprint \"@@end\"\n" % (pre, body)
+    if shape == "map_key":
+        n = target // (width or 3)
+        body = "".join(chars[(i * 7) % len(chars)] for i in range(n))
+        return "mL = map[str, int] { \"%s%s\": 7 }\nprint mL\nprint \"@@end\"\n" % (pre, body)
+    out, size, i = ["print \"%s\"" % pre], 0, 0
+    while size < target:                                  # many_strings: realistic, ASCII record framing in between
+        n = 40 + (i * 13) % 50
+        s = "".join(chars[(i + j * (1 + i % 3)) % len(chars)] for j in range(n))
+        out.append("print \"%s\"" % s if i % 5 else "t%d = \"%s\"\nprint t%d + \"|\"" % (i, s, i))
+        size += len(s.encode()) + 12
+        i += 1
+    out.append("print \"@@end\"")
+    return "\n".join(out) + "\n"
+
+
+def _straddles(b):
+    """Multiples of 4096 (< size) that fall strictly inside the UTF-8 encoding of a character."""
+    return {"size": len(b), "straddled": [o for o in range(4096, len(b), 4096) if (b[o] & 0xC0) == 0x80]}
+
+
+def large_items(prop, quick):
+    items = []
+    if quick:
+        plan = [("one_string", w, 18, p) for w in (2, 3, 4) for p in range(w)] + \
+               [("one_string", 3, 70, p) for p in range(3)] + \
+               [("many_strings", 0, 20, p) for p in range(4)] + [("map_key", 0, 10, p) for p in range(4)]
+    else:
+        plan = [("one_string", w, k, p) for w in (2, 3, 4) for k in (9, 18, 33, 41, 70, 140) for p in range(4)] + \
+               [(sh, 0, k, p) for sh in ("many_strings", "map_key", "one_string") for k in (10, 20, 40, 70) for p in range(8)]
+    for shape, w, kib, pad in plan:
+        items.append((prop, shape, w, kib, pad))
+    return items
+
+
+def work_large(item):
+    prop, shape, w, kib, pad = item
+    files = {"main.ms": large_program(shape, w, kib, pad)}
+    status, devs, a, b = compare(prop, files, "main.ms", cpu=20, inspect=_straddles)
+    res = {"status": status, "devs": devs, "size": b.artefacts.get("size"), "straddled": b.artefacts.get("straddled", []),
+           "witness": None}
+    if devs:
+        res["witness"] = {"files": files, "entry": "main.ms", "pipeline": prop, "shape": shape, "char_width": w, "kib": kib,
+                          "ascii_prefix": pad, "bytecode_size": res["size"],
+                          "offsets_4096k_inside_a_character": res["straddled"], "deviations": devs,
+                          "run": _trim(a.brief()), "pipeline_b": _trim(b.brief())}
+    return res
+
+
+def _trim(brief):
+    for s in brief.get("steps", []):
+        for k in ("out", "err"):
+            if len(s.get(k, "")) > 600:
+                s[k] = s[k][:300] + " …(%d chars)… " % len(s[k]) + s[k][-300:]
+    return brief
+
+
+def collect_large(prop, out, quick):
+    items = large_items(prop, quick)
+    results = core.pmap(work_large, items, chunksize=1)
+    groups, n, biggest = {}, 0, 0
+    for (status, res), item in zip(results, items):
+        name = "large:%s/utf8x%s/%dKiB/pad%d" % (item[1], item[2] or "mixed", item[3], item[4])
+        if status != "ok":
+            out.inconclusive.append("%s: %s" % (name, str(res)[-300:]))
+            continue
+        if res["status"] != "compared":
+            out.inconclusive.append("%s: %s" % (name, res["status"]))
+            continue
+        n += 1
+        out.evaluations += 1
+        biggest = max(biggest, res["size"] or 0)
+        g = groups.setdefault((item[1], item[2], item[3]), {"size": 0, "straddled": set()})
+        g["size"] = max(g["size"], res["size"] or 0)
+        g["straddled"].update(res["straddled"])
+        if res["straddled"]:
+            out.distinct.add(core.h(["large", item[1:]]))
+        if res["devs"]:
+            dev, detail = res["devs"][0]
+            out.violations.append(core.Violation("%s:large:%s/utf8x%s:%s" % (prop, item[1], item[2] or "mixed", dev),
+                                                 "%s (bytecode %s bytes; offsets inside a character: %s): %s" % (
+                                                     name, res["size"], res["straddled"][:6], detail), res["witness"]))
+    covered, missing = set(), []
+    for (shape, w, kib), g in sorted(groups.items()):
+        covered.update(g["straddled"])
+        if shape == "one_string":
+            # keep clear of the ASCII head/tail of the file
+            want = [o for o in range(8192, g["size"] - 64, 8192)]
+            miss = [o for o in want if o not in g["straddled"]]
+            if miss:
+                missing.append("%s/utf8x%s/%dKiB: %s" % (shape, w, kib, miss))
+    if missing:
+        out.inconclusive.append("large files: no alignment variant puts a character across offsets " + "; ".join(missing))
+    return {"large_programs_compared": n, "large_biggest_bytecode_bytes": biggest,
+            "large_offsets_4096k_straddled_by_a_character_in_some_variant": sorted(covered),
+            "large_groups(shape,width,KiB)": len(groups)}
